@@ -1,7 +1,14 @@
 #!/bin/bash
-# usage: ns.sh <command...>  -- runs the command in a private mount namespace in which /repo is a scratch copy
-# (/tmp/repo_mut, made with `rsync -a --exclude target /repo/ /tmp/repo_mut/`): seeded changes can then be applied to
-# "/repo" and tried while a long run is using the real /repo. Nothing outside the namespace sees the change.
+# usage: ns.sh <command...>  -- runs the command in a private mount namespace in which
+#   /repo            is a scratch copy (/tmp/repo_mut, made with `rsync -a --exclude target /repo/ /tmp/repo_mut/`),
+#   /verif/.build    is a scratch build directory (/tmp/verif_build_ns, seeded from /verif/.build), and
+#   /verif/evidence  is a scratch directory,
+# so that seeded changes can be applied to "/repo" and tried while a long run is using the real /repo, and neither the
+# real build output nor the committed evidence ever holds anything built from or observed on a changed tree.
 COPY=${REPO_COPY:-/tmp/repo_mut}
+NSB=${NS_BUILD:-/tmp/verif_build_ns}
+NSE=${NS_EVIDENCE:-/tmp/verif_evidence_ns}
 [ -d "$COPY/.git" ] || { echo "no copy of /repo at $COPY"; exit 2; }
-exec unshare -m bash -c 'mount --bind "$0" /repo && shift 0 && exec "$@"' "$COPY" "$@"
+[ -d "$NSB" ] || cp -a /verif/.build "$NSB"
+mkdir -p "$NSE"
+exec unshare -m bash -c 'mount --bind "$1" /repo && mount --bind "$2" /verif/.build && mount --bind "$3" /verif/evidence && shift 3 && exec "$@"' ns "$COPY" "$NSB" "$NSE" "$@"
